@@ -31,34 +31,35 @@ from ..lib.leangen import lexcept, llist
 LEVEL = "proof"
 CLAIM = dict(
     category="proof",
-    text="Lean theorems (any field, any finite face/cell index sets, abstract divergence D, arbitrary pinned cell): "
-    "flux_reduced_equiv (full block system <=> Schur-complement system + flux formula, W diagonal invertible), "
-    "pressure_equiv (under 1^T D = 0, zero-mean source, zero last rhs entry: reduced system <=> pinned pure-pressure system "
-    "with p_k = 0, lambda = 0 - the side conditions the code relies on), full_iff_pinned; BRIDGE to the executable model the driver "
-    "runs (every matrix tabulated from an entry formula over Q): model_full_is_abstract / model_reduced_is_abstract / "
-    "model_pinned_rows identify assembleFull, eliminateFlux, eliminateMultiplier with the abstract operators on Fin nf, Fin nc, and "
-    "model_linearSolve_sound proves that for each formulation the vector the model returns solves the assembled full system (inner "
-    "solve correctness is an explicit hypothesis = the back-end contract); 1^T D = 0 for the finite-volume divergence of any tensor "
-    "grid is imported from C06 (div_column_sum_zero), giving model_linearSolve_sound_fv; dispatch theorems decided over the "
-    "acceptance matrix re-tabulated from the running code on every run (every documented formulation constructs and completes a "
-    "linear_solve with the direct back-end, 'pressure' with all three back-ends, no accepted spelling falls through the "
-    "branches); the hand-written CSC row/column removal is modelled array-operation by array-operation (np.arange/where/unique/"
-    "delete, index shift, indptr loop, unique, assert) and csc_surgery_dense / csc_surgery_toDense prove IN GENERAL (every "
-    "well-formed pattern = decidable patternOk, arbitrary data) that it succeeds, removes two columns and represents the matrix with "
-    "rows/columns {k, last} dropped (proof per numpy step: rm_indices characterisation, the indptr loop leaves the number of kept "
-    "positions, np.unique merges exactly the two emptied columns, np.delete restricted to a column, row index shift); "
-    "cached_pattern_reuse proves that the data-only refresh of later calls is the surgery of the new matrix; patternOk is evaluated "
-    "by the model on the pattern of every one of the 186 C07-range shapes in the thorough tier, where the model's arrays are also "
-    "compared exactly with the implementation's "
-    "(position tags as data). Public tie: every usable formulation x back-end solves "
-    "random systems (positive face weights over three decades, zero-mean source) with an exact-arithmetic residual against the "
-    "original full system within the stated tolerance, agrees pairwise and with the model's exact rational solution, and keeps "
-    "doing so when the cached factorisation is reused.",
-    note="KNOWN FINDING (reported, not suppressed silently): formulation 'flux_reduced' with linear_solver 'amg' / 'cg' constructs and runs but "
-    "returns solutions that do not satisfy the full system once AMG coarsens (>= 100 cells): non-symmetric indefinite saddle-point system. "
-    "Back-end accuracy (AMG, CG) is a measured quantity: tolerance = configured relative tolerance x ||reduced rhs||; "
-    "petsc4py is not installed, the ksp back-end is tabulated as unavailable and not exercised.",
-    technique="Lean 4 proofs (Finset algebra; decide over generated tables) + differential correspondence + exact-residual oracle",
+    text="PROVED (Lean, any field, any finite face/cell index sets, abstract divergence D, arbitrary pinned cell): flux_reduced_equiv "
+    "(full block system <=> Schur-complement system + flux formula, W diagonal invertible), pressure_equiv (under 1^T D = 0, zero-mean "
+    "source, zero last rhs entry: reduced system <=> pinned pure-pressure system with p_k = 0, lambda = 0), full_iff_pinned (the three "
+    "formulations have the same solution SET), full_system_unique (ordered field, positive weights, kernel of D^T = constants: at most "
+    "one solution, hence THE same flux/pressure/multiplier; the kernel hypothesis for the FV grid - connectedness of the cell graph - is "
+    "an explicit hypothesis, not derived), full_system_homogeneous. BRIDGE to the executable model the driver runs (every matrix "
+    "tabulated from an entry formula over Q; eliminate_flux reads only the diagonal from the matrix handed in and D, D^T, the constant "
+    "sub-block from the setup-time cache, as the code does): model_full_is_abstract / model_reduced_is_abstract / model_pinned_rows "
+    "identify assembleFull, eliminateFlux, eliminateMultiplier with the abstract operators on Fin nf, Fin nc; model_linearSolve_sound: "
+    "for each formulation the vector the model returns solves the assembled full system - UNCONDITIONALLY in the inner solver, because "
+    "the model checks its Gauss-Jordan result in exact arithmetic before using it (solveChecked; non-vacuity example by decide +kernel); "
+    "1^T D = 0 for the finite-volume divergence of any tensor grid is imported from C06 (model_linearSolve_sound_fv). CSC surgery: "
+    "modelled numpy-operation by numpy-operation; csc_surgery_dense / csc_surgery_toDense prove for every well-formed pattern (decidable "
+    "patternOk) and arbitrary data that it drops rows/columns {k, last}; cached_pattern_reuse for the data-only refresh. OBSERVED IN "
+    "LEAN FORM (decide over a table re-tabulated from the running code on a 2x2 grid on every run, i.e. an exhaustive observation of the "
+    "dispatch, not a theorem about the source): documented_formulations_usable, pressure_all_backends, flux_reduced_all_backends_run, "
+    "accepted_spellings_handled. TIED BY CORRESPONDENCE: block assembly = darcy_init (exact), reduced / fully reduced matrices (exact on "
+    "dyadic weights), exact rational model solution vs every usable formulation x back-end incl. matrices whose divergence blocks differ "
+    "from the cache, CSC arrays + patternOk on C07-range shapes (all 186 in the thorough tier, 54 in quick). ORACLE ONLY (no model): "
+    "reuse of the cached solver across successive systems and inside Bregman runs with a regularisation schedule, caller-held rhs/matrix "
+    "unchanged, same right-hand side kind at magnitudes 2^-40 .. 2^20, end-to-end distances; residuals in exact Fraction arithmetic "
+    "against the original full system with an a-posteriori bound.",
+    note="KNOWN FINDINGS (reported, exit 0): formulation 'flux_reduced'/'flux-reduced' with linear_solver 'amg'/'cg' does not solve the full "
+    "system on grids with >= 100 cells (indefinite non-symmetric saddle system; signature carries the size class, a failure of those pairs "
+    "on 2..99 cells is a violation), CG divides by zero on the single-cell grid, AMG's coarse pseudo-inverse mis-solves it end to end for a "
+    "small Bregman penalty. A matrix handed to linear_solve whose off-diagonal blocks differ from the solver's own is silently solved with "
+    "the cached blocks (model and code agree; outside C08, which quantifies over systems the solver assembles). petsc4py is not installed: "
+    "ksp is tabulated as unavailable. AMG/CG accuracy is a measured quantity (tolerance = configured rtol x ||reduced rhs||).",
+    technique="Lean 4 proofs (Finset algebra, list induction; decide over generated tables) + differential correspondence + exact-residual oracle",
 )
 
 EPS = float(np.finfo(float).eps)
@@ -134,11 +135,12 @@ def make_solver(d, shape, form, solver, voxel=None, cls=None, **opts):
     return cls(grid, None, options)
 
 
-def full_matrix(w, W):
+def full_matrix(w, W, dscale=1.0):
     import scipy.sparse as sps
 
+    D = w.div * dscale
     return sps.bmat(
-        [[sps.diags(W, format="csc"), -w.div.T, None], [w.div, None, -w.pressure_constraint.T], [None, w.pressure_constraint, None]],
+        [[sps.diags(W, format="csc"), -D.T, None], [D, None, -w.pressure_constraint.T], [None, w.pressure_constraint, None]],
         format="csc",
     )
 
@@ -389,7 +391,7 @@ def solve_correspondence(ctx, d, usable, shapes, ntrials):
             if isinstance(w0, Raised):
                 continue
             nf, nc = int(w0.grid.num_faces), int(w0.grid.num_cells)
-            kind = ("exact", "ok", "lastrhs", "prev")[t % 4]
+            kind = ("exact", "foreign", "lastrhs", "prev", "ok")[t % 5]
             # trial 0: dyadic weights and an exactly zero-mean integer source, so that the side conditions of
             # pressure_equiv hold exactly and the three model formulations must agree as rationals
             W = dyadic_weights(ctx.rng, nf) if kind == "exact" else random_weights(ctx.rng, nf)
@@ -400,8 +402,13 @@ def solve_correspondence(ctx, d, usable, shapes, ntrials):
             if kind == "prev":
                 prev = np.zeros_like(rhs)
                 prev[nf + int(w0.constrained_cell_flat_index)] = 0.25
+            # "foreign": the matrix handed to linear_solve has its divergence blocks doubled. The reduced formulations take D,
+            # D^T and the constant sub-block from the setup-time cache and only the diagonal from the argument; the model does
+            # the same, so model and implementation must still agree (that they then solve a different system than the one
+            # handed in is outside C08, which quantifies over the systems the solver assembles itself)
+            dscale = 2 if kind == "foreign" else 1
             for f in ("full", "flux_reduced", "pressure"):
-                lines.append(" ".join((f"solve {f} {fmt(0.25) if prev is not None else 'none'} " + protocol_system(w0, W, rhs)).split()))
+                lines.append(" ".join((f"solve {f} {fmt(0.25) if prev is not None else 'none'} {dscale} " + protocol_system(w0, W, rhs)).split()))
                 cases.append((shape, f, W, rhs, prev, kind))
     got = ctx.model(lines)
     n_bad = 0
@@ -416,7 +423,7 @@ def solve_correspondence(ctx, d, usable, shapes, ntrials):
             w = call(make_solver, d, shape, fi, si)
             if isinstance(w, Raised):
                 continue
-            A = full_matrix(w, W)
+            A = full_matrix(w, W, 2.0 if kind == "foreign" else 1.0)
             r = call(w.linear_solve, A.copy(), rhs.copy(), None if prev is None else prev.copy())
             if isinstance(r, Raised) or exact is None:
                 same = isinstance(r, Raised) and exact is None and repr(r) == model
@@ -437,8 +444,8 @@ def solve_correspondence(ctx, d, usable, shapes, ntrials):
                 finite = x.shape == rhs.shape and bool(np.all(np.isfinite(x)))
                 rtol_res = tolerances(w, A, W, rhs, exact, si)
                 res_ok = finite and float(sum(v * v for v in exact_residual(A, x, rhs))) ** 0.5 <= rtol_res
-                if not res_ok:
-                    ctx.fail(f"C08:linear_solve:formulation={fi}:linear_solver={si}:residual-vs-full-system",
+                if not res_ok and kind != "foreign":
+                    ctx.fail(f"C08:linear_solve:formulation={fi}:linear_solver={si}:residual-vs-full-system:{size_class(shape)}",
                              f"solution returned by linear_solve[{fi},{si}] does not satisfy the original full system (differs from the exact "
                              f"rational solution by {err:.3e} > {tol:.3e}) on grid {shape}",
                              {"kind": "system", "shape": list(shape), "pair": [fi, si], "seed": ctx.seed})
@@ -465,6 +472,12 @@ def solve_correspondence(ctx, d, usable, shapes, ntrials):
 
 def sig_shape(shape):
     return "x".join(map(str, shape))
+
+
+def size_class(shape):
+    """grid-size class of a signature: AMG really coarsens from 100 unknowns on; a single cell has no face"""
+    n = int(np.prod(shape))
+    return "cells=1" if n == 1 else ("cells<100" if n < 100 else "cells>=100")
 
 
 def one_system(ctx, d, usable, shape, seed_tag, tight=False, only=None, data=None):
@@ -531,7 +544,7 @@ def one_system(ctx, d, usable, shape, seed_tag, tight=False, only=None, data=Non
                 break
             x = np.asarray(r[0], dtype=float)
             if x.shape != b0.shape or not np.all(np.isfinite(x)):
-                out.append(dict(sig=f"C08:linear_solve:formulation={f}:linear_solver={s}:residual-vs-full-system",
+                out.append(dict(sig=f"C08:linear_solve:formulation={f}:linear_solver={s}:residual-vs-full-system:{size_class(shape)}",
                                 what=f"solution returned by linear_solve[{tag}] has the wrong shape or non-finite entries on grid {shape}, step {step}",
                                 pair=[f, s], step=step))
                 break
@@ -542,7 +555,7 @@ def one_system(ctx, d, usable, shape, seed_tag, tight=False, only=None, data=Non
             if (r2 if s != "direct" else rinf) <= tol:
                 ctx.cov["max_residual_over_tol"][s] = max(ctx.cov["max_residual_over_tol"].get(s, 0.0), (r2 if s != "direct" else rinf) / tol)
             if not (r2 if s != "direct" else rinf) <= tol:
-                out.append(dict(sig=f"C08:linear_solve:formulation={f}:linear_solver={s}:residual-vs-full-system",
+                out.append(dict(sig=f"C08:linear_solve:formulation={f}:linear_solver={s}:residual-vs-full-system:{size_class(shape)}",
                                 what=f"solution returned by linear_solve[{tag}] does not satisfy the original full system: "
                                      f"|A x - b| = {rinf:.3e} (2-norm {r2:.3e}) > tol {tol:.3e} on grid {shape}, step {step}, reuse_solver={reuse}",
                                 pair=[f, s], step=step, residual=rinf, tol=tol))
@@ -622,7 +635,9 @@ def schedule_oracle(ctx, d, usable, shape, L, every, num_iter, scale=1.0):
         if not ok:
             continue
         rtol = 1e-11
-        opts = dict(num_iter=num_iter, L=L, return_info=True, tol_residual=0.0, tol_increment=0.0, tol_distance=0.0,
+        # the penalty L and the regularisation are absolute flux scales: scaled with the masses the whole run is homogeneous
+        opts = dict(num_iter=num_iter, L=L * scale, regularization=float(np.finfo(float).eps) * scale, return_info=True,
+                    tol_residual=0.0, tol_increment=0.0, tol_distance=0.0,
                     bregman_update=(lambda it: it % every == every - 1))
         if s in ("amg", "cg"):
             opts["linear_solver_options"] = {"rtol": rtol, "atol": rtol if s == "amg" else 0.0, "maxiter": 1000}
@@ -715,13 +730,13 @@ def oracle(ctx, d, voc, construct, accept):
         if fails:
             # a tolerance miss of an iterative back-end is re-run once (same system, failing pairs only) with tightened
             # solver options before it counts
-            numeric = [x for x in fails if ":residual-vs-full-system" in x["sig"] or ":differs-from:" in x["sig"]]
+            numeric = [x for x in fails if ":residual-vs-full-system:" in x["sig"] or ":differs-from:" in x["sig"]]
             hard = [x for x in fails if x not in numeric]
             retry = {tuple(x["pair"]) for x in numeric if x["pair"][1] in ("amg", "cg")}
             if retry and data is not None:
                 again, _ = one_system(ctx, d, usable, shape, None, tight=True, only=retry | {("full", "direct")}, data=data)
                 keep = [x for x in numeric if tuple(x["pair"]) not in retry]
-                numeric = keep + [x for x in again if ":residual-vs-full-system" in x["sig"] or ":differs-from:" in x["sig"]]
+                numeric = keep + [x for x in again if ":residual-vs-full-system:" in x["sig"] or ":differs-from:" in x["sig"]]
                 ctx.cov["retried_with_tight_options"] = ctx.cov.get("retried_with_tight_options", 0) + 1
             for x in hard + numeric:
                 ctx.fail(x["sig"], x["what"], {"kind": "system", "shape": list(shape), "pair": x.get("pair"), "seed": ctx.seed,
